@@ -1,7 +1,9 @@
 package props
 
 import (
+	"context"
 	"encoding/json"
+	"errors"
 	"fmt"
 	"os"
 	"os/exec"
@@ -300,6 +302,21 @@ func (c14r) Exec(r *kit.Run) {
 					err := p.QuerySolution("read_term(T, [variable_names(Vs)]).").Scan(&w)
 					if want := fmt.Sprintf("t(g%d,", gi); err != nil || !strings.HasPrefix(string(w.T), want) || !strings.HasPrefix(string(w.Vs), "['X'=") {
 						bad("read_term/2 from its own input", fmt.Sprint(w.T, " ", w.Vs), err)
+					}
+				},
+				func() {
+					// an iterator abandoned after its context was cancelled: Close, then Err, while the search goroutine winds up
+					ctx, cancel := context.WithCancel(context.Background())
+					defer cancel()
+					sols, err := p.QueryContext(ctx, "member(X, [1, 2, 3]).")
+					if err != nil || !sols.Next() {
+						bad("QueryContext, Next", nil, err)
+						return
+					}
+					cancel()
+					_ = sols.Close()
+					if err := sols.Err(); err != nil && !errors.Is(err, context.Canceled) {
+						bad("Err after cancel and Close", nil, err)
 					}
 				},
 				func() {
